@@ -3,6 +3,7 @@ package main
 import (
 	"fmt"
 	"go/ast"
+	"go/printer"
 	"go/token"
 	"go/types"
 	"os"
@@ -207,7 +208,11 @@ func VerifyFunc(prog *Program, pk *Pkg, fc *FuncContract, tier string) (rep *Fun
 	env := c.newEnv(st, entry)
 	env.scopePos = fd.Body.Lbrace + 1
 	c.bindParamsEntry(env)
+	isFragment := fc.Opts["fragment"] != ""
 	for _, cl := range fc.Requires {
+		if isFragment {
+			break // a fragment's requires clauses speak about the state at its loop: see verifyFragment
+		}
 		t := env.boolTerm(cl.Expr)
 		st.assume(c, And(env.facts...))
 		st.assumeSoft(c, t)
@@ -215,6 +220,9 @@ func VerifyFunc(prog *Program, pk *Pkg, fc *FuncContract, tier string) (rep *Fun
 	}
 	// "uses L ...": separately proved lemmas, available as universally quantified facts in every obligation of this function
 	for _, u := range strings.Fields(fc.Opts["uses"]) {
+		if isFragment {
+			break
+		}
 		c.assumeLemma(st, pk, u)
 	}
 	entry.pc = st.pc
@@ -229,9 +237,13 @@ func VerifyFunc(prog *Program, pk *Pkg, fc *FuncContract, tier string) (rep *Fun
 			c.footprint = append(c.footprint, c.modTargets(fenv, cl)...)
 		}
 		c.noName--
-		c.footprintReady = true
+		c.footprintReady = fc.Opts["fragment"] == ""
 	}
 
+	if frag := fc.Opts["fragment"]; frag != "" {
+		c.verifyFragment(st, entry, fc, fd, frag, rep)
+		return rep
+	}
 	// body
 	out := c.execBlock(st, fd.Body.List)
 	end := c.finishFrame(out.normal, fd.Body.End())
@@ -573,4 +585,272 @@ func (c *Ctx) assumeLemma(st *State, pk *Pkg, name string) {
 		c.qfact(st, Term{fmt.Sprintf("(forall (%s) %s)", strings.Join(binders, " "), body.S), SBool})
 	}
 	c.usedLemmas[pk.rel+".lemma:"+name] = true
+}
+
+// verifyFragment: "opt fragment <loop header>" - the contract is about ONE loop of the function, verified from an
+// arbitrary state: every variable the loop uses (parameters, locals declared before it) holds an arbitrary value of its
+// type, the heap is arbitrary, the requires clauses (over those variables) are assumed, the loop is executed with its
+// invariants (loop 0 = the fragment loop, nested loops 1.. in source order) and the ensures clauses are checked in the
+// state after the loop, where they may mention any variable in scope there. What is proved is the Hoare triple
+// {requires} loop {ensures} of the loop as it stands in the function; how the function reaches the loop and what it does
+// with the result afterwards is outside this contract. No frame condition is checked.
+func (c *Ctx) verifyFragment(st, entry *State, fc *FuncContract, fd *ast.FuncDecl, header string, rep *FuncReport) {
+	var loops []ast.Stmt
+	// "<header>" or "<header>" @N (the N-th loop, counted from 1, with that header)
+	nth := 0
+	if i := strings.LastIndex(header, "@"); i > 0 && strings.HasSuffix(strings.TrimSpace(header[:i]), "\"") {
+		fmt.Sscanf(strings.TrimSpace(header[i+1:]), "%d", &nth)
+		header = strings.TrimSpace(header[:i])
+	}
+	want := normStmtText(header)
+	if f := strings.Fields(header); len(f) == 2 && f[0] == "writes" {
+		// "writes v": the innermost loop that assigns to variable v (robust against edits of the loop header)
+		loops = c.loopsWriting(fd, f[1])
+		want = "\x00"
+	}
+	ast.Inspect(fd.Body, func(nd ast.Node) bool {
+		switch l := nd.(type) {
+		case *ast.ForStmt:
+			if normStmtText(c.loopHeaderText(l)) == want {
+				loops = append(loops, l)
+			}
+		case *ast.RangeStmt:
+			if normStmtText(c.loopHeaderText(l)) == want {
+				loops = append(loops, l)
+			}
+		}
+		return true
+	})
+	if nth > 0 && nth <= len(loops) {
+		loops = loops[nth-1 : nth]
+	}
+	if len(loops) != 1 {
+		rep.Err = fmt.Sprintf("fragment %q matches %d loops of %s (exactly one expected)", header, len(loops), fc.Key)
+		rep.Obligs = c.obligs
+		return
+	}
+	loop := loops[0]
+	c.fr.loopIdx = numberLoops(loop)
+	// arbitrary values for the variables that flow into the loop
+	var facts []Term
+	type pendingVar struct {
+		obj types.Object
+		v   Val
+	}
+	var pending []pendingVar
+	seen := map[types.Object]bool{}
+	ast.Inspect(loop, func(nd ast.Node) bool {
+		id, ok := nd.(*ast.Ident)
+		if !ok {
+			return true
+		}
+		obj, ok := c.pkg.info.Uses[id].(*types.Var)
+		if !ok || obj.IsField() || seen[obj] || obj.Pkg() != c.pkg.types || obj.Parent() == c.pkg.types.Scope() {
+			return true
+		}
+		seen[obj] = true
+		if obj.Pos() >= loop.Pos() && obj.Pos() < loop.End() {
+			return true // declared inside the fragment
+		}
+		if _, bound := st.vars[obj]; bound && !c.isResultVar(obj) {
+			return true // a parameter: already arbitrary
+		}
+		t := obj.Type()
+		if !validType(t) || c.opaqueType(t) {
+			st.vars[obj] = Opaque{t}
+			return true
+		}
+		v := c.fresh(t, obj.Name(), &facts)
+		c.refsBounded(v, st.alloc, &facts)
+		c.recordInputs(obj.Name(), v)
+		if c.boxedVars[obj] && c.addressTakenBefore(fd, obj, loop.End()) {
+			// its address may already be stored somewhere when the loop starts: such aliasing is not modelled
+			unsupp("fragment: the address of %s is taken before the end of the loop", obj.Name())
+		}
+		pending = append(pending, pendingVar{obj, v})
+		return true
+	})
+	// values first (all bounded by the entry allocation), then the boxes of address-taken locals: a local whose address is
+	// only taken after the loop cannot be pointed at by anything that exists while the loop runs
+	for _, pv := range pending {
+		c.declVar(st, pv.obj, pv.v)
+	}
+	st.assume(c, And(facts...))
+	// the requires clauses may mention the locals: evaluate them now, at the loop
+	env := c.newEnv(st, st)
+	env.scopePos = loop.Pos()
+	c.bindParamsEntry(env)
+	for _, cl := range fc.Requires {
+		t := env.boolTerm(cl.Expr)
+		st.assume(c, And(env.facts...))
+		st.assumeSoft(c, t)
+		env.facts = nil
+	}
+	for _, u := range strings.Fields(fc.Opts["uses"]) {
+		c.assumeLemma(st, c.pkg, u)
+	}
+	fentry := st.clone()
+	c.entry = fentry
+	c.cover(st, "fragment-entry-reachable", loop.Pos())
+	out := c.exec(st, loop, "")
+	end := out.normal
+	if end == nil || end.dead() {
+		rep.Obligs = c.obligs
+		rep.Err = "the fragment loop has no normal exit"
+		return
+	}
+	if pf := c.panicFlag(end); pf.S != "false" {
+		end.assume(c, Not(pf))
+	}
+	c.cover(end, "fragment-exit-reachable", loop.End())
+	eenv := c.newEnv(end, fentry)
+	eenv.scopePos = loop.End()
+	c.bindParamsEntry(eenv)
+	for _, cl := range fc.Ensures {
+		if cl.Thorough && c.tier != "thorough" {
+			continue
+		}
+		c.goalMode++
+		t := eenv.boolTerm(cl.Expr)
+		c.goalMode--
+		goal := Implies(And(eenv.facts...), t)
+		eenv.facts = nil
+		c.oblige(end, "ensures", cl.Label, loop.Pos(), goal, cl.Text)
+	}
+	c.trusted["fragment contract: the loop is verified from an arbitrary state; how the function reaches it and uses its result is outside the contract"] = true
+	rep.Obligs = c.obligs
+	for t := range c.trusted {
+		rep.Trusted = append(rep.Trusted, t)
+	}
+	sort.Strings(rep.Trusted)
+	for u := range c.usedContracts {
+		rep.Used = append(rep.Used, u)
+	}
+	sort.Strings(rep.Used)
+}
+
+func (c *Ctx) isResultVar(obj types.Object) bool {
+	for _, r := range c.fr.results {
+		if r == obj {
+			return true
+		}
+	}
+	return false
+}
+
+// loopHeaderText: the source text of a loop from "for" up to (not including) the opening brace of its body.
+func (c *Ctx) loopHeaderText(l ast.Stmt) string {
+	var body *ast.BlockStmt
+	switch x := l.(type) {
+	case *ast.ForStmt:
+		body = x.Body
+	case *ast.RangeStmt:
+		body = x.Body
+	}
+	var b strings.Builder
+	cp := shallowLoopWithoutBody(l)
+	printer.Fprint(&b, c.prog.fset, cp)
+	_ = body
+	t := strings.Join(strings.Fields(b.String()), " ")
+	t = strings.TrimSpace(strings.TrimSuffix(t, "}"))
+	return strings.TrimSpace(strings.TrimSuffix(t, "{"))
+}
+
+func normStmtText(t string) string {
+	t = strings.Trim(strings.TrimSpace(t), "\"")
+	t = strings.TrimSpace(strings.TrimSuffix(strings.TrimSpace(t), "{"))
+	return strings.Join(strings.Fields(t), " ")
+}
+
+func shallowLoopWithoutBody(l ast.Stmt) ast.Stmt {
+	switch x := l.(type) {
+	case *ast.ForStmt:
+		cp := *x
+		cp.Body = &ast.BlockStmt{}
+		return &cp
+	case *ast.RangeStmt:
+		cp := *x
+		cp.Body = &ast.BlockStmt{}
+		return &cp
+	}
+	return l
+}
+
+// addressTakenBefore: some &obj (or a closure capturing obj) occurs in the function before position end.
+func (c *Ctx) addressTakenBefore(fd *ast.FuncDecl, obj types.Object, end token.Pos) bool {
+	found := false
+	ast.Inspect(fd.Body, func(nd ast.Node) bool {
+		switch x := nd.(type) {
+		case *ast.UnaryExpr:
+			if x.Op == token.AND && x.Pos() < end {
+				if id := rootIdent(x.X); id != nil && c.pkg.info.ObjectOf(id) == obj {
+					found = true
+				}
+			}
+		case *ast.FuncLit:
+			if x.Pos() < end {
+				ast.Inspect(x.Body, func(n2 ast.Node) bool {
+					if id, ok := n2.(*ast.Ident); ok && c.pkg.info.ObjectOf(id) == obj {
+						found = true
+					}
+					return true
+				})
+			}
+		}
+		return true
+	})
+	return found
+}
+
+// loopsWriting: the innermost loops of fd whose body assigns to (or through an index / field of) the variable named v.
+func (c *Ctx) loopsWriting(fd *ast.FuncDecl, v string) []ast.Stmt {
+	writes := func(n ast.Node) bool {
+		found := false
+		ast.Inspect(n, func(nd ast.Node) bool {
+			check := func(e ast.Expr) {
+				if id := rootIdent(e); id != nil && id.Name == v {
+					found = true
+				}
+			}
+			switch x := nd.(type) {
+			case *ast.FuncLit:
+				return false
+			case *ast.AssignStmt:
+				for _, l := range x.Lhs {
+					check(l)
+				}
+			case *ast.IncDecStmt:
+				check(x.X)
+			}
+			return true
+		})
+		return found
+	}
+	var cands []ast.Stmt
+	ast.Inspect(fd.Body, func(nd ast.Node) bool {
+		switch l := nd.(type) {
+		case *ast.ForStmt:
+			if writes(l.Body) {
+				cands = append(cands, l)
+			}
+		case *ast.RangeStmt:
+			if writes(l.Body) {
+				cands = append(cands, l)
+			}
+		}
+		return true
+	})
+	var inner []ast.Stmt
+	for _, a := range cands {
+		hasNested := false
+		for _, b := range cands {
+			if a != b && b.Pos() > a.Pos() && b.End() <= a.End() {
+				hasNested = true
+			}
+		}
+		if !hasNested {
+			inner = append(inner, a)
+		}
+	}
+	return inner
 }
